@@ -263,6 +263,48 @@ def brief(o, limit=600):
     return s if len(s) <= limit else s[:limit] + "...(%d chars)" % len(s)
 
 
+# ------------------------------------------------------------------ container and integer types
+class StateDict(dict):
+    """A user's dict subclass carrying extra attributes (still a dict for every isinstance-based contract)."""
+
+    def __init__(self, *a, **k):
+        dict.__init__(self, *a, **k)
+        self.note = "user container"
+        self.history = []
+
+
+class TInt(int):
+    """A user's int subclass (e.g. an enum-like constant); bool-free, still an int for every isinstance-based contract."""
+
+
+CONTAINER_KINDS = ("OrderedDict", "defaultdict", "dict subclass with attributes", "mixed dict subclasses")
+
+
+def wrap_container(kind, d, g):
+    """A new container of the requested dict (sub)class with the items of ``d`` (shallow)."""
+    import collections
+    if kind == "mixed dict subclasses":
+        kind = CONTAINER_KINDS[int(g.integers(0, 3))]
+    if kind == "OrderedDict":
+        return collections.OrderedDict(d)
+    if kind == "defaultdict":
+        return collections.defaultdict(list, d)
+    if kind == "dict subclass with attributes":
+        return StateDict(d)
+    return dict(d)
+
+
+def wrap_state(kind, S, g):
+    """Initial state whose five containers (and the plain dicts directly inside them) are dict subclasses."""
+    if kind == "dict":
+        return S
+    for d in S:
+        for k, v in list(d.items()):
+            if type(v) is dict and not any(v is x for x in S):
+                d[k] = wrap_container(kind, v, g)
+    return [wrap_container(kind, d, g) for d in S]
+
+
 # ------------------------------------------------------------------ initial states
 STATE_CLASSES = ["empty", "scalars", "nested", "arrays", "objects", "aliased", "mixedkeys", "pybrops", "library", "library"]
 
